@@ -7,7 +7,7 @@
 EXTENDS Values, TLC
 CONSTANT Dummy
 VARIABLE v
-YS == {X, 1, 2018, 9999}   MS == {X, 1, 12}   DS == {X, 1, 31}   HS == {X, 0, 23}   MIS == {X, 0, 59}   WS == {X, 0, 6}
+YS == {X, 1, 2018, 2021, 9999}   MS == {X, 1, 2, 4, 12}   DS == {X, 1, 29, 30, 31}   HS == {X, 0, 23}   MIS == {X, 0, 59}   WS == {X, 0, 6}
 PS == {NOPOD, "morning", "lateevening"}
 Times == {MkTime(y, m, d, H, M, w, p) : y \in YS, m \in MS, d \in DS, H \in HS, M \in MIS, w \in WS, p \in PS}
 Init == v \in Times
